@@ -160,6 +160,9 @@ static inline const char *path_remove_prefix(const char *path,
 
         if (cmp == 0)
         {
+            if (*path == 0 || *prefix == 0)
+                break;
+
             path = path_iterate(path);
             prefix = path_iterate(prefix);
         }
